@@ -17,7 +17,28 @@ type v3obj struct {
 	e *m3.Environmental
 }
 
+// useNilReceiver: decode through typed nil pointers instead of constructor results (C12)
+var useNilReceiver bool
+
 func v3Decode(dec byte, s string) (o v3obj, err error) {
+	if useNilReceiver {
+		switch dec {
+		case 'B':
+			o.b, err = (*m3.Base)(nil).Decode(s)
+		case 'T':
+			o.t, err = (*m3.Temporal)(nil).Decode(s)
+			if err == nil {
+				o.b = o.t.BaseMetrics()
+			}
+		case 'E':
+			o.e, err = (*m3.Environmental)(nil).Decode(s)
+			if err == nil {
+				o.t = o.e.TemporalMetrics()
+				o.b = o.e.BaseMetrics()
+			}
+		}
+		return
+	}
 	switch dec {
 	case 'B':
 		o.b, err = m3.NewBase().Decode(s)
